@@ -56,11 +56,14 @@ func biasFor(prop string) map[string]int {
 		b["DepositDeployment"] = 8
 		b["CreateLease"] = 16
 	case "C03", "C05":
+		b["sweep"] = 30
 		b["CloseLease"] = 10
 		b["CloseBid"] = 9
 		b["CloseDeployment"] = 8
 	case "C06":
 		b["dseq.prefix-family"] = 70
+		b["clb.lost"] = 15
+		b["busy"] = 25
 		b["CreateLease"] = 16
 		b["WithdrawLease"] = 10
 		b["fault.wrongsigner"] = 25
@@ -79,7 +82,16 @@ func biasFor(prop string) map[string]int {
 		b["CreateCertificate"] = 2
 		b["RevokeCertificate"] = 1
 		b["fault.crash"] = 5
+		b["UpdateProvider"] = 8
+		b["up.busiest"] = 60
+		b["busy"] = 50
+		b["grp.hasreq"] = 30
+		b["CreateLease"] = 16
+		b["CreateBid"] = 18
 	case "C08":
+		b["cb.selfbid"] = 6
+		b["busy"] = 30
+		b["cp.any"] = 15
 		b["SignProviderAttributes"] = 12
 		b["DeleteProviderAttributes"] = 6
 		b["UpdateProvider"] = 9
@@ -185,7 +197,7 @@ func (t *txRunner) sign(op *Op) ([]byte, bool) {
 func (e Engine) Execute(r *core.Run) *core.Violation {
 	nrep := 1
 	if r.Property == "C07" {
-		nrep = 2 + r.Choose(2, "knob.replicas")
+		nrep = 2 + r.Choose(3, "knob.replicas")
 	}
 	bias := biasFor(r.Property)
 	if bias["sweep"] > 0 && r.Bool(bias["sweep"], "knob.sweep") {
@@ -196,6 +208,9 @@ func (e Engine) Execute(r *core.Run) *core.Violation {
 	chk := newChecker(r.Property, w)
 	g := &gen{w: w, bias: bias}
 	t := &txRunner{r: r, w: w, L: L, chk: chk, g: g}
+	if bias["busy"] > 0 && r.Bool(bias["busy"], "knob.busy-provider") {
+		g.busy = w.ActorsOf("provider")[0]
+	}
 
 	maxTx := 20 + r.Choose(100, "knob.maxtx")
 	if r.Tier == "thorough" {
@@ -317,6 +332,7 @@ func (Engine) Describe(property string) core.Description {
 	switch property {
 	case "C07":
 		d.QuickRuns, d.ThoroughRuns = 240, 12000
+		d.ReplayAttempts = 12
 	case "C17":
 		d.QuickRuns, d.ThoroughRuns = 320, 16000
 	}
